@@ -72,13 +72,13 @@ TESTED_NOT_PROVED = [
     "renumbered corpus case; the graph-level statement is theorem C02_rc_equivariant",
     "idempotence of get_rc under options is proved when element_key keeps element and typesGH (C02_rcx_idem) and refuted by witnesses when either is "
     "dropped; the centre of the centre is compared with the model on every option case",
-    "longest_radius_extension: proved to return a simple path of unchanged bonds from a centre atom (C02_lre_path); that it is a LONGEST such path is "
-    "only tested (model with fuel compared on every 'lre' case; oracle: at least as long as the longest such path from the first centre atom); "
-    "C02_extract_k_minus1 relates the context to its length",
+    "longest_radius_extension: proved to return a simple path of unchanged bonds from a centre atom (C02_lre_path) that is at least as long as every "
+    "such path from the FIRST centre atom (C02_lre_longest_first); for later centre atoms (search restricted by the atoms of earlier paths) the "
+    "result is only compared with the model on every 'lre' case; C02_extract_k_minus1 relates the context to its length",
     "get_rc / the RadiusExpand helpers do not mutate their input; context_extraction copies the dict (oracle on every option / helper / list case)",
     "isinstance(order, tuple) in find_unequal_order_edges: ITS graphs whose order is a list are outside the model (the library never builds them)",
 ]
-LEVEL_TEXT = ("Machine-checked proof (Coq, 31 theorems, all closed under the global context) over an executable model of get_rc and RadiusExpand: on every "
+LEVEL_TEXT = ("Machine-checked proof (Coq, 32 theorems, all closed under the global context) over an executable model of get_rc and RadiusExpand: on every "
               "well-formed ITS graph whose standard_order is the order difference the centre contains a bond iff its two orders differ or both atoms "
               "are hydrogens (for ignore_aromaticity ITS graphs: iff the orders differ by at least 1, with a witness that 'differs' alone fails; "
               "stated also on the two sides: for the ITS of a reactant graph G and a product graph H two atoms are joined in the centre iff they are "
@@ -91,7 +91,7 @@ LEVEL_TEXT = ("Machine-checked proof (Coq, 31 theorems, all closed under the glo
               "every variant; with default options the general function is get_rc; every variant is well-formed, commutes with injective renumberings and is "
               "idempotent when element_key keeps element and typesGH).  Helpers: find_unequal_order_edges is a subset of the centre "
               "atoms, equal without unchanged H-H bonds, strict in general; remove_normal_edges keeps exactly the standard_order != 0 bonds; "
-              "extract_k option handling incl. n_knn=-1; list extraction is element-wise.  The model is compared with the Python code on every run "
+              "extract_k option handling incl. n_knn=-1 (longest_radius_extension returns a simple path of unchanged bonds, longest from the first centre atom); list extraction is element-wise.  The model is compared with the Python code on every run "
               "(exhaustive <= 3-node scopes for the default and for the options, random/inconsistent/ignore_aromaticity ITS graphs, corpus "
               "reactions and rewritings, radii 0..7 and -1, lists).")
 LEVEL_NOTE = ("ITS graphs whose standard_order follows neither rule are outside the hypotheses of the 'order differs' theorems and are checked by "
